@@ -8,13 +8,15 @@
     Partial items:
     - generalised power cone: gradient, Hessian (the dense matrix D + pp' - qq' - rr' of the stored
       vectors, [gpHuu]/[gpHuw]/[gpHww]) and the degree identity <grad,z> = -(dim1+1) are proved
-      in general dimension.  Not proved: that [gp_mul_Hs] multiplies by exactly that dense
-      matrix (it is D x + p (p.x) - q (q.x) - r (r.x) by definition of the model; checked per
-      sample), H z = -grad, and conjugacy of the primal gradient, which is in fact FALSE of
-      the code for dim2 > 0: known finding F4;
+      in general dimension, as are H z = -grad through the model of mul_Hs ([C14_gp_Hz]) and the
+      acceptance test of update_scaling.  Not proved: that [gp_mul_Hs] multiplies by exactly
+      that dense matrix for arbitrary x (definitional: D x + p (p.x) - q (q.x) - r (r.x)).
+      Conjugacy of the primal gradient is FALSE of the code for dim2 > 0
+      ([C14_gp_primal_grad_conjugate_refuted], known finding F4); the positive statement for
+      the repaired function is not proved;
     - convergence of the Newton-Raphson iterations is not proved: the conjugacy theorems take
       the equation they solve as a hypothesis; the Wright-omega iteration is enclosed on
-      [1, 1000] only ([C14_wright_omega_enclosure], exact real arithmetic). *)
+      [0, 1000] only ([C14_wright_omega_enclosure], exact real arithmetic). *)
 From Coq Require Import Reals List.
 From Coquelicot Require Import Coquelicot.
 Import ListNotations.
@@ -23,7 +25,8 @@ Require Import Clarabel.Nonsym.LemmasExp Clarabel.Nonsym.LemmasPow Clarabel.Nons
                Clarabel.Nonsym.LemmasConj Clarabel.Nonsym.LemmasThird Clarabel.Nonsym.LemmasThirdPow
                Clarabel.Nonsym.LemmasGp Clarabel.Nonsym.LemmasPow2 Clarabel.Nonsym.LemmasPowConj
                Clarabel.Nonsym.LemmasGpD Clarabel.Nonsym.LemmasGpGen Clarabel.Nonsym.LemmasPd2
-               Clarabel.Nonsym.LemmasWright.
+               Clarabel.Nonsym.LemmasWright Clarabel.Nonsym.LemmasStep Clarabel.Nonsym.LemmasGpHz
+               Clarabel.Nonsym.LemmasGpF4.
 
 (* membership predicates = interior of the cone / dual cone *)
 Theorem C14_exp_primal_feasible_iff : stmt_exp_primal_feasible_iff.
@@ -83,10 +86,20 @@ Theorem C14_gp_hess_is_derivative : stmt_gp_hess_is_derivative.
 Proof. exact gp_hess_is_derivative_ok. Qed.
 Theorem C14_gp_log_homogeneous : stmt_gp_log_homogeneous.
 Proof. exact gp_log_homogeneous_ok. Qed.
+(* H z = -grad through the model of mul_Hs; update_scaling accepts exactly int K* *)
+Theorem C14_gp_Hz : stmt_gp_Hz.
+Proof. exact gp_Hz_ok. Qed.
+Theorem C14_gp_update_scaling_iff : stmt_gp_update_scaling_iff.
+Proof. exact gp_update_scaling_iff_ok. Qed.
+(* finding F4 on the model of the code as it is: not the conjugate map *)
+Theorem C14_gp_primal_grad_conjugate_refuted :
+  exists al u w stored_r, gp_interior al u w /\
+    ~ gp_conjugate_w (gp_gradient_primal_F4 TOpsR stored_r al u w) al w.
+Proof. exact gp_primal_grad_conjugate_refuted. Qed.
 Theorem C14_example_gp_interior : gp_interior [1 / 4; 3 / 4] [1; 1] [1].
 Proof. exact gp_interior_example. Qed.
 (* the Wright-omega iteration solves w + ln w = z to 1e-6 for every z in [1, 1000] *)
-Theorem C14_wright_omega_enclosure : forall z, (1 <= z <= 1000)%R -> wright_residual_ok z.
+Theorem C14_wright_omega_enclosure : forall z, (0 <= z <= 1000)%R -> wright_residual_ok z.
 Proof. exact wright_omega_enclosure. Qed.
 (* primal-dual scaling: secant equations, semidefiniteness, fall-back mu H *)
 Theorem C14_pd_scaling : stmt_pd_scaling.
@@ -95,6 +108,11 @@ Theorem C14_pd_scaling_strict : stmt_pd_scaling_strict.
 Proof. exact pd_scaling_strict_ok. Qed.
 Theorem C14_update_Hs_dual : stmt_update_Hs_dual.
 Proof. exact update_Hs_dual_ok. Qed.
+(* nonsymmetric step safety: backtrack_search with the cones' membership tests *)
+Theorem C14_nonsym_step_safe : stmt_nonsym_step_safe.
+Proof. exact nonsym_step_safe_ok. Qed.
+Theorem C14_backtrack_log_bound : stmt_backtrack_log_bound.
+Proof. exact backtrack_log_bound_ok. Qed.
 (* starting points *)
 Theorem C14_pow_unit_init_central : stmt_pow_unit_init_central.
 Proof. exact pow_unit_init_central_ok. Qed.
